@@ -33,7 +33,7 @@ RCSrc == IF Len(Lits) > 0 /\ Rnd(1..2) = 1 THEN Rnd(LitSrc) ELSE Rnd(Regs)
 GenStep ==
    \E kind \in {Rnd(1..120)} :
    \/ /\ kind \in 1..4
-      /\ \E r \in {RReg}, n \in {IF Long THEN Rnd(0..(MaxLen \div 3)) ELSE Rnd(-1..4)}, c \in {RChr} : MakeString(r, n, c)
+      /\ \E r \in {RReg}, n \in {IF Long THEN Rnd(0..(MaxLen \div 2)) ELSE Rnd(-1..4)}, c \in {RChr} : MakeString(r, n, c)
    \/ /\ kind \in 5..9
       /\ \E r \in {RReg}, l \in {RStr}, w \in {Rnd(1..5)} :
             \/ w = 1 /\ FromList(r, l)
